@@ -37,6 +37,9 @@ pub struct Script {
     read_sizes: Vec<u16>,
     /// Drop the whole stream after having written this many chunks (abort); None = orderly.
     abort_after_chunks: Option<u8>,
+    /// Drop the whole stream after having read this many bytes (typically in the middle of a frame).
+    #[serde(default)]
+    abort_read_after: Option<u16>,
     yields: u8,
 }
 
@@ -71,7 +74,7 @@ fn gen_side(ch: &mut Choices, ncaps: usize) -> SideCfg {
                 if ch.chance(1, 8) {
                     continue;
                 }
-                caps.push(CapCfg { id: i as u64 * 7 + ch.below(2) as u64 * 100 * (i as u64 % 2), accept: ch.below(5) as u32, connect: ch.below(5) as u32 });
+                caps.push(CapCfg { id: i as u64 * 7 + ch.below(2) as u64 * 100 * (i as u64 % 2), accept: ch.weighted(&[(1, 0u32), (2, 1), (3, 2), (1, 3), (1, 4)]), connect: ch.weighted(&[(1, 0u32), (2, 1), (3, 2), (1, 3), (1, 4)]) });
             }
             caps
         },
@@ -84,7 +87,8 @@ fn gen_script(ch: &mut Choices) -> Script {
         chunks: (0..n).map(|_| ch.pick(&[0u16, 1, 15, 16, 17, 200, 4096, 5000, 20000])).collect(),
         flush_each: ch.bool(),
         read_sizes: (0..1 + ch.below(3)).map(|_| ch.pick(&[1u16, 3, 16, 100, 5000])).collect(),
-        abort_after_chunks: ch.chance(1, 6).then(|| ch.below(n + 1) as u8),
+        abort_after_chunks: ch.chance(1, 8).then(|| ch.below(n + 1) as u8),
+        abort_read_after: ch.chance(1, 6).then(|| ch.pick(&[1u16, 5, 17, 20, 100, 1000])),
         yields: ch.below(4) as u8,
     }
 }
@@ -199,9 +203,10 @@ async fn party(
     let total: u32 = script.chunks.iter().map(|c| *c as u32).sum();
     sh.lock().unwrap().sent.insert(serial, (cap, side_a, is_opener, total, None));
     let abort_flag = Arc::new(tokio::sync::Notify::new());
+    let stop_writer = Arc::new(std::sync::atomic::AtomicBool::new(false));
     // writer
     let wt = {
-        let (ctx, sh, script, abort_flag) = (ctx.clone_ctx(), sh.clone(), script.clone(), abort_flag.clone());
+        let (ctx, sh, script, abort_flag, stop_writer) = (ctx.clone_ctx(), sh.clone(), script.clone(), abort_flag.clone(), stop_writer.clone());
         let guard = OpenGuard { sh: sh.clone(), key, halves: halves.clone() };
         tokio::spawn(async move {
             let _guard = guard;
@@ -210,7 +215,7 @@ async fn party(
             let res: anyhow::Result<()> = async {
                 w.write_all(&ctx, &header(cap, serial, total)).await?;
                 for (i, c) in script.chunks.iter().enumerate() {
-                    if script.abort_after_chunks == Some(i as u8) {
+                    if script.abort_after_chunks == Some(i as u8) || stop_writer.load(std::sync::atomic::Ordering::SeqCst) {
                         break;
                     }
                     det::yields(script.yields as usize).await;
@@ -237,6 +242,11 @@ async fn party(
     let guard = OpenGuard { sh: sh.clone(), key, halves };
     let mut r: MuxStream = r;
     let read_fut = async {
+        let read_limit = script.abort_read_after.map(|x| x as u32);
+        if read_limit.is_some_and(|l| l < 16) {
+            let _ = r.read_exact(&ctx, read_limit.unwrap() as usize).await?;
+            return Ok(None);
+        }
         let h = r.read_exact(&ctx, 16).await?;
         if h.is_empty() {
             // the peer aborted before sending anything / closed at once: no data at all is legal only if it wrote nothing
@@ -252,6 +262,9 @@ async fn party(
         let mut i = 0;
         let mut eos = false;
         while got < hlen {
+            if read_limit.is_some_and(|l| got + 16 >= l) {
+                return Ok(None);
+            }
             let want = (script.read_sizes[i % script.read_sizes.len()] as u32).min(hlen - got);
             i += 1;
             let d = r.read_exact(&ctx, want as usize).await?;
@@ -313,6 +326,9 @@ async fn party(
         }
         Some(Ok(None)) | None => {}
         Some(Err(e)) => fail(&sh, format!("session {idx} (opener={is_opener}, cap {cap}): {e:#}")),
+    }
+    if script.abort_read_after.is_some() {
+        stop_writer.store(true, std::sync::atomic::Ordering::SeqCst);
     }
     drop(r);
     drop(guard);
@@ -463,7 +479,7 @@ fn check(case: &Case, st: &mut Stats) -> Result<(), String> {
                         let script = if opener { &s.opener } else { &s.acceptor };
                         s.cap == cap
                             && (s.opener_is_a == opener) == side_a
-                            && script.abort_after_chunks.is_some()
+                            && (script.abort_after_chunks.is_some() || script.abort_read_after.is_some())
                             && g.party_received.get(&(*idx, opener)) == Some(&None)
                     })
                     .count() as i64;
@@ -478,7 +494,7 @@ fn check(case: &Case, st: &mut Stats) -> Result<(), String> {
         // classification
         let concurrent = g.open.values().any(|(_, max)| *max >= 2);
         let multi_frame = case.sessions.iter().any(|s| s.opener.chunks.iter().chain(&s.acceptor.chunks).any(|c| *c as u64 > case.a.write_frame_size.min(case.b.write_frame_size)));
-        let aborts = case.sessions.iter().any(|s| s.opener.abort_after_chunks.is_some() || s.acceptor.abort_after_chunks.is_some());
+        let aborts = case.sessions.iter().any(|s| s.opener.abort_after_chunks.is_some() || s.acceptor.abort_after_chunks.is_some() || s.opener.abort_read_after.is_some() || s.acceptor.abort_read_after.is_some());
         if concurrent {
             st.class("concurrent_streams_on_one_capability");
         }
